@@ -535,6 +535,7 @@ func (p *uPacketPacker) MarshalInitialPacketPayload(pl payload, v protocol.Versi
 				qfs = append(qfs, QUICFrameCrypto{int(cryptoFrame.Offset), int(cryptoFrame.Length)})
 			}
 		}
+		p.initialDatagramIdx++ // InitialPackets[i] plans datagram i whatever builds its frames
 		return qfs.Build(cryptoData)
 	}
 
@@ -545,6 +546,7 @@ func (p *uPacketPacker) MarshalInitialPacketPayload(pl payload, v protocol.Versi
 		p.initialDatagramIdx++ // advance after building; each call corresponds to one datagram
 		return result, err
 	}
+	p.initialDatagramIdx++
 	return p.uSpec.InitialPacketSpec.FrameBuilder.Build(cryptoData)
 }
 
